@@ -129,6 +129,22 @@ Theorem C17_payloads_in_order_unchanged : forall k c w r w',
 Proof. exact recv_payload. Qed.
 Print Assumptions C17_payloads_in_order_unchanged.
 
+(* ... whatever the legal shape of the event: the unused key absent or present with None,
+   a disconnect with or without 'code' / 'reason' (the payload theorem above quantifies over
+   all of them; this states the normalisation explicitly). *)
+Theorem C17_event_shape_irrelevant : forall k n b c r,
+  recv_value k (CText n b) = recv_value k (CText n false)
+  /\ recv_value k (CBin n b) = recv_value k (CBin n false)
+  /\ disc_code (CDisc c r) = disc_code (CDisc c false).
+Proof. exact event_shape_irrelevant. Qed.
+Print Assumptions C17_event_shape_irrelevant.
+
+Theorem C17_receive_result_is_recv_value : forall f k c w e w1,
+  require_accepted w = None -> do_receive f c w = (inl (inl e), w1) ->
+  op_recv f k c w = (recv_value k e, w1).
+Proof. exact op_recv_value. Qed.
+Print Assumptions C17_receive_result_is_recv_value.
+
 Theorem C17_other_operations_keep_stream : forall f hr c o w r w',
   match o with ORecvText | ORecvData | ORecvMedia | ORecvCancelled | OClose _ _ => False | _ => True end ->
   run_op f hr c o w = (r, w') -> stream w' = stream w.
@@ -231,14 +247,14 @@ Example C17_session_example :
   let c := mkCfg true true 2 1011 KExact in
   let sc := [(OAccept (SubStr 1) HGood, false); (OSendText (PGood 7 KSub), true); (OAdvance, false);
              (ORecvText, false); (OSendText (PGood 8 KExact), true); (ORecvText, true)] in
-  let '(rs, e, w) := session true (fun _ => true) c true [] (Routed sc) [CText 5; CDisc (Some 1001)] [SOk; SOther] in
+  let '(rs, e, w) := session true (fun _ => true) c true [] (Routed sc) [CText 5 true; CDisc (Some 1001) true] [SOk; SOther] in
   script_ok sc /\ e = Returned
   /\ rs = [Ret VNone; Raise XOther; Ret VNone; Ret (VText 5); Raise (XDisc 1001); Raise (XDisc 1001)]
   /\ closes w = [EAccept (Some 1%N) true; EText 7%N KSub]
   /\ handed w = true.
 Proof. vm_compute. repeat split; repeat constructor. Qed.
 
-Example C17_legal_nonvacuous : Legal (mkCfg true true 2 1011 KExact) (ws0 [CText 1%N] [SOk]) /\ wf (ws0 [] [])
+Example C17_legal_nonvacuous : Legal (mkCfg true true 2 1011 KExact) (ws0 [CText 1%N false] [SOk]) /\ wf (ws0 [] [])
   /\ receiver_has (mkCfg true true 0 1011 KExact) (ws0 [] []).
 Proof.
   split; [apply legal_init|]. split; [intros _; reflexivity|]. right. left. reflexivity.
@@ -248,6 +264,6 @@ Qed.
 Example C17_projection_example :
   let s := R18.reach 1 [M18.Msg 1; M18.Msg 2; M18.Msg 3]
                      [M18.LPump; M18.LServer; M18.LPump; M18.LServer; M18.LPump] in
-  rest_pc (M18.pump s) /\ proj_queue s = [CText 1] /\ proj_hand s = Some (CText 2)
-  /\ proj_client s = [CText 3] /\ proj_flag s = None.
+  rest_pc (M18.pump s) /\ proj_queue s = [CText 1 false] /\ proj_hand s = Some (CText 2 false)
+  /\ proj_client s = [CText 3 false] /\ proj_flag s = None.
 Proof. vm_compute. repeat split; reflexivity. Qed.
